@@ -88,7 +88,7 @@ pub fn spec() -> PropSpec<Case> {
     },
     check,
     cases: |tier| tier.pick(200_000, 4_000_000),
-    rule: "payload text over ASCII, Latin-1, BMP, astral, U+FEFF, U+FFFD, C1 and line-separator characters, encoded as UTF-8 / UTF-16LE / UTF-16BE / windows-1252, with no / matching / mismatching BOM, 0-2 inserted invalid bytes and optional truncation of the last byte; served with no charset or one of 15 labels (case, whitespace, aliases, unsupported) as local or remote JSON root, TypeScript root (payload inside a comment and a string literal) or attributed JSON import, or (plain UTF-8 with or without BOM) as a file of a JSR package with / without module information embedded in the version manifest and nothing cached; non-trivial = the bytes contain a non-ASCII byte or a BOM, or the effective charset is not UTF-8; distinct = distinct case JSON",
+    rule: "payload text over ASCII, Latin-1, BMP, astral, U+FEFF, U+FFFD, C1 and line-separator characters, encoded as UTF-8 / UTF-16LE / UTF-16BE / windows-1252, with no / matching / mismatching BOM, 0-2 inserted invalid bytes and optional truncation of the last byte; served with no charset or one of 15 labels (case, whitespace, aliases, unsupported) as local or remote JSON root, TypeScript root (payload inside a comment and a string literal) or attributed JSON import (every fourth remote case through the cache-bypassing retry after a refused first answer), or (plain UTF-8 with or without BOM) as a file of a JSR package with / without module information embedded in the version manifest and nothing cached; non-trivial = the bytes contain a non-ASCII byte or a BOM, or the effective charset is not UTF-8; distinct = distinct case JSON",
     assumptions: &[
       "reference decoder covers exactly the generated labels (WHATWG label matching: ASCII case-insensitive, surrounding whitespace ignored; utf-16 = utf-16le; iso-8859-1, latin1, us-ascii = windows-1252)",
       "a quoted charset parameter (charset=\"utf-8\") is not generated",
@@ -419,7 +419,16 @@ pub fn check(case: &Case, _tier: Tier) -> Outcome {
   } else {
     spec.clone()
   };
-  let loader = WorldLoader::new(served);
+  let mut loader = WorldLoader::new(served);
+  // every fourth remote case: the first answer is refused as a checksum
+  // mismatch (a stale cached copy), so the module comes from the one
+  // cache-bypassing retry - with the same headers
+  if remote && case.text.len() % 4 == 1 {
+    loader
+      .faults
+      .insert((url.to_string(), 0), crate::harness::Fault::ChecksumError);
+    o.label("obtained-through-the-retry-after-a-checksum-error");
+  }
   let opts = Opts::default();
   let mut graph = ModuleGraph::new(opts.graph_kind());
   build_into(
